@@ -42,9 +42,10 @@ EDATE_ALLYEARS = {'quick': (1, -12), 'thorough': (-13, -12, -1, 1, 11, 12, 13, 4
 TEXT_TIME_DAYS = {'quick': ('2000-02-29',), 'thorough': ('2000-02-29', '1900-03-01')}
 QUICK_SECONDS = (0, 1, 30, 59)
 
-# delivery-channel differential (core.Env): of every 8 evaluations that bind variables, one is repeated with the
-# values handed in by the cell/range listeners and one with the values returned by custom functions; outcomes must agree
-CHANNELS = 8
+# delivery-channel and host-type differential (core.Env): of every 9 evaluations that bind variables, one is repeated with the
+# values handed in by the cell/range listeners, one with the values returned by custom functions and one with every value an
+# instance of a trivial subclass of its type (numpy.float64, IntEnum, rich-text str ... are such); outcomes must agree
+CHANNELS = 9
 
 BOUNDS = {
     'quick': 'YEAR/MONTH/DAY of DATE(..) and of the whole-day serial, WEEKDAY types 1..3: every day of 12 boundary '
